@@ -342,6 +342,8 @@ func (evm *EVM) Call(ctx context.Context, caller ethvm.ContractRef, addr common.
 						preCallResult.Err = ErrOutOfGas
 					}
 
+					// the call failed: undo the value transfer (and account creation) done above
+					evm.StateDB.RevertToSnapshot(snapshot)
 					return preCallResult.Ret, preCallResult.Gas, preCallResult.Err
 				}
 
